@@ -58,6 +58,21 @@ def run(out, rng, tier, args):
         cb = CaseBuilder(nconf + 100 + j, t, {"stats": tree_stats(t)})
         cb.solve(rng.choice(["sampled", "external"]), 400, 0.0, rng.choice([1, 2]), "vanilla", None, record=True)
         freq.append(cb)
+    # several chance infosets in one game: two coins in sequence (both drawn in every pass: their draws must be
+    # independent), and infosets whose weight rows are permutations of each other ((3,1) and (1,3), (9,1) and (1,9))
+    for j in range(4 if tier == "quick" else 8):
+        dec = lambda i_: {"p": 1 + (i_ % 2), "i": 300 + i_, "a": [[1, {"t": f2b(rng.uniform(-3, 3))}], [2, {"t": f2b(rng.uniform(-3, 3))}]]}
+        wa, wb = rng.choice([((1.0, 1.0), (1.0, 1.0)), ((3.0, 1.0), (1.0, 3.0)), ((9.0, 1.0), (1.0, 9.0)), ((3.0, 7.0), (0.6, 0.4))])
+        if j % 2 == 0:
+            second = lambda base: {"c": 21, "o": [[f2b(wb[0]), dec(base)], [f2b(wb[1]), dec(base + 1)]]}
+            t = {"c": 20, "o": [[f2b(wa[0]), second(0)], [f2b(wa[1]), second(2)]]}
+        else:
+            t = {"p": 1, "i": 290, "a": [[1, {"c": 20, "o": [[f2b(wa[0]), dec(0)], [f2b(wa[1]), dec(1)]]}],
+                                         [2, {"c": 21, "o": [[f2b(wb[0]), dec(2)], [f2b(wb[1]), dec(3)]]}]]}
+        from ..gen import tree_stats
+        cb = CaseBuilder(nconf + 200 + j, t, {"stats": tree_stats(t), "joint": True})
+        cb.solve(rng.choice(["sampled", "external"]), 1500, 0.0, rng.choice([1, 1, 2]), "vanilla", None, record=True)
+        freq.append(cb)
     impl1 = harness.run_cases("C10p1", [cb.case() for cb in p1 + freq], chunk=max(1, (nconf + 8) // 8 + 1), jobs=4)
     # ---------------- phase 2: replay the recorded draws through the model ----------------
     cases = []
@@ -180,6 +195,33 @@ def run(out, rng, tier, args):
                 a[k_][0] += wk
                 a[k_][1] += wk * (1 - wk)
                 a[k_][2] += (res == k_)
+        # joint frequencies of two chance infosets drawn in the same pass: the product of the declared distributions
+        bypass = {}
+        for kind, cell, pas, ws, res, ov in r["ops"][0]["events"]:
+            if kind == 0:
+                bypass.setdefault(pas, {}).setdefault(cell, ([b2f(x) for x in ws], res))
+        joint = {}
+        for pas, cells in bypass.items():
+            if not cb.meta.get("joint"):
+                break       # only where neither infoset lies below a particular outcome of the other (the family above)
+            ids = sorted(cells)
+            for x in range(len(ids)):
+                for y in range(x + 1, len(ids)):
+                    (w1, r1), (w2, r2) = cells[ids[x]], cells[ids[y]]
+                    J = joint.setdefault((ids[x], ids[y], len(w1), len(w2)), {})
+                    for k1, p1_ in enumerate(w1):
+                        for k2, p2_ in enumerate(w2):
+                            e_ = J.setdefault((k1, k2), [0.0, 0.0, 0])
+                            e_[0] += p1_ * p2_
+                            e_[1] += p1_ * p2_ * (1 - p1_ * p2_)
+                            e_[2] += (r1 == k1 and r2 == k2)
+        for (c1, c2, _l1, _l2), J in joint.items():
+            for (k1, k2), (e, v, c) in J.items():
+                out.count("joint_frequency_cells_tested")
+                if v > 5 and abs(c - e) / math.sqrt(v) > 6.0:
+                    out.monitor_hits.append((cb.cid, "chance cells %d and %d were drawn as (%d, %d) in the same pass %d times, expected %.1f +- %.1f "
+                                             "under independent draws from the declared weights (z = %.1f)"
+                                             % (c1, c2, k1, k2, c, e, math.sqrt(v), (c - e) / math.sqrt(v)), {"case": cb.case()}, "joint-frequency"))
         for (kind, cell), a in acc.items():
             for k_, (e, v, c) in enumerate(a):
                 out.count("frequency_cells_tested")
